@@ -59,6 +59,7 @@ type Job struct {
 	ClipOut   int  // > 0: keep only the last ClipOut bytes of each case's output
 	CaseCPUS  int  // watchdog per call: CPU-seconds of the worker process (default 20)
 	MaxEvents int64
+	Abort     bool // end a case at its first monitor violation
 }
 
 type JobResult struct {
@@ -98,6 +99,7 @@ func HandleJob(raw json.RawMessage) interface{} {
 	lap("engine")
 	p.OpKind = KindOp
 	p.MaxEvents = j.MaxEvents
+	p.Abort = j.Abort
 	if p.MaxEvents == 0 {
 		p.MaxEvents = 20_000_000
 	}
@@ -178,6 +180,7 @@ type Runner struct {
 	PerProgram int
 	MaxHangs   int // confirmed hangs after which the remaining skipped cases are not re-run
 	Expired    func() bool
+	Abort      bool // end a case at its first monitor violation
 
 	mu     sync.Mutex
 	queue  [][]int
@@ -203,7 +206,7 @@ func (rn *Runner) job(idx []int) (jr JobResult, bad string, status string) {
 	src := rn.Render(idx)
 	var x mc.Result
 	rn.Pool.Run(1, func(int) interface{} {
-		return Job{Src: src, N: len(idx), Poison: rn.Poison, Record: rn.Record, ClipOut: rn.ClipOut}
+		return Job{Src: src, N: len(idx), Poison: rn.Poison, Record: rn.Record, ClipOut: rn.ClipOut, Abort: rn.Abort}
 	}, 60*time.Minute, func(y mc.Result) { x = y })
 	status = x.Status
 	if x.Status != "ok" {
